@@ -521,12 +521,18 @@ func runCall(raw json.RawMessage, seed int64, rec *Rec) {
 		if mctx.Err() != nil && !st.entered.Load() {
 			break // never started: nothing to wait for
 		}
-		rec.Add(E("hstuck", "stacks", allStacks()))
-		mctx.end("canceled")
-		return
+		// (a handler that started late, on a loaded machine, gets the full time as well)
+		select {
+		case <-st.exited:
+			rec.Add(E("hexit", "saweof", st.sawEOF, "ctxerr", st.ctxErr))
+		case <-time.After(10 * time.Second):
+			rec.Add(E("hstuck", "stacks", allStacks()))
+			mctx.end("canceled")
+			return
+		}
 	}
 	leaked, sample := 0, ""
-	for i := 0; i < 300; i++ {
+	for i := 0; i < 1500; i++ {
 		if leaked, sample = libraryGoroutines(sid); leaked == 0 {
 			break
 		}
